@@ -95,14 +95,45 @@ def direct(run, chk):
                                                 "what": "depth() after a history of validate/unroll/depth/query calls differs from depth() of a fresh module"})
             nbad += 1
     direct.histories = checked
+    # (c) depth() around transformations: the value is that of the module's current program
+    #     (abstract machine of the module API, coq/Module/ModuleSpec.v), whatever was queried before
+    import modcheck
+    import modcorr
+    mrnd = random.Random(chk.seed + 29)
+    progs = modcheck.programs(mrnd, 30 if chk.tier == "quick" else 150)
+    cases = []
+    for k in range(120 if chk.tier == "quick" else 1500):
+        src = progs[k % len(progs)]
+        body, nmod = [], 1
+        for _ in range(mrnd.randint(1, 3)):
+            i = mrnd.randrange(nmod)
+            if mrnd.random() < 0.6:
+                body.append((i, "depth"))
+            inpl = mrnd.random() < 0.7
+            body.append((i, mrnd.choice(modcorr.TRANSFORMS), inpl))
+            if not inpl:
+                nmod += 1
+            body.append((mrnd.randrange(nmod), "depth"))
+        body += [(i, "depth") for i in range(nmod)]
+        cases.append((src, body))
+    codes, real, errs = modcorr.evaluate(cases, tag="c09hist")
+    nb = 0
+    for (src, h), c, r in zip(cases, codes, real):
+        if c not in (0, None, 999) and h[c - 1][1] == "depth" and nb < 4:
+            nb += 1
+            chk.violation("transform_history_%d" % nb, {"kind": "history", "source": src, "calls": [list(o) for o in h[:c]],
+                                                        "what": "depth() differs from the depth of the module's current program",
+                                                        "implementation_output": str(r["outs"][c - 1][1])})
+    direct.transform_histories = sum(1 for c in codes if c == 0)
 
 
 def run(tier, seed, replay):
     if replay:
         return replay_cmd(replay)
     direct.histories = 0
-    return langcheck.standard(PROP, tier, seed, cases(tier, seed), classify, direct=direct, spec_codes=(15,),
+    return langcheck.standard(PROP, tier, seed, cases(tier, seed), classify, direct=direct, spec_codes=(15,), extra_targets=("Module/ModuleSpec.vo",),
                               extra_cov=lambda run: {"histories_checked": direct.histories,
+                                                     "transformation_histories_agreeing_with_machine": getattr(direct, "transform_histories", 0),
                                                      "depth_histogram": _hist(run)})
 
 
@@ -121,6 +152,9 @@ def replay_cmd(path):
     r = json.load(open(path))
     if r.get("kind") == "history":
         chk = common.Check(PROP, "quick", 0)
+        if any(isinstance(c, list) for c in r["calls"]):
+            import modcheck
+            return modcheck.replay_cmd(PROP, path)
         res = _history_worker((r["source"], [c for c in r["calls"][:-1]]))
         print("history replay:", res)
         if res is not None and res[0] != "ok":
